@@ -396,3 +396,81 @@ def run_parallel(fn, items, procs=16):
     ctx = mp.get_context("fork")
     with ctx.Pool(min(procs, len(items))) as pool:
         return pool.map(fn, items, chunksize=max(1, len(items) // (procs * 4)))
+
+
+def build_services_system(video_resolution="720p (1280 x 720)", technology="php-symfony", provider="openai", model_name="gpt-3.5-turbo-1106",
+                          instance_type=None, cloud_provider=None, with_plain_job=True, values=(1000, 2000, 4000, 5000, 8000, 12000, 2000, 2000, 3000)):
+    """one system containing every builder class (cloud server, GPU server, three services with their jobs)"""
+    from efootprint.builders.hardware.boavizta_cloud_server import BoaviztaCloudServer
+    from efootprint.core.hardware.gpu_server import GPUServer
+    from efootprint.builders.services.generative_ai_ecologits import GenAIModel, GenAIJob
+    from efootprint.builders.services.video_streaming import VideoStreaming, VideoStreamingJob
+    from efootprint.builders.services.web_application import WebApplication, WebApplicationJob
+    from efootprint.constants.countries import Countries
+    b = Built(); o = b.obj
+    o["cloud_st"] = Storage.ssd("cloud storage")
+    kw = {}
+    if instance_type: kw["instance_type"] = SourceObject(instance_type)
+    if cloud_provider: kw["provider"] = SourceObject(cloud_provider)
+    o["cloud"] = BoaviztaCloudServer.from_defaults("cloud server", storage=o["cloud_st"], base_ram_consumption=SourceValue(1 * u.GB), **kw)
+    o["gpu_st"] = Storage.ssd("gpu storage")
+    o["gpu"] = GPUServer.from_defaults("gpu server", storage=o["gpu_st"])
+    o["video"] = VideoStreaming.from_defaults("video service", server=o["cloud"])
+    o["webapp"] = WebApplication("webapp service", o["cloud"], technology=SourceObject(technology))
+    o["genai"] = GenAIModel.from_defaults("genai service", provider=SourceObject(provider), model_name=SourceObject(model_name), server=o["gpu"])
+    o["video_job"] = VideoStreamingJob.from_defaults("video job", service=o["video"], resolution=SourceObject(video_resolution), video_duration=SourceValue(20 * u.min))
+    o["webapp_job"] = WebApplicationJob.from_defaults("webapp job", service=o["webapp"])
+    o["genai_job"] = GenAIJob("genai job", o["genai"], output_token_count=SourceValue(1000 * u.dimensionless))
+    jobs = [o["video_job"], o["webapp_job"], o["genai_job"]]
+    if with_plain_job:
+        o["plain_job"] = Job.from_defaults("plain job", server=o["cloud"]); jobs.append(o["plain_job"])
+    o["step"] = UsageJourneyStep("step", user_time_spent=SourceValue(20 * u.min), jobs=jobs)
+    o["uj"] = UsageJourney("journey", uj_steps=[o["step"]])
+    o["net"] = Network("network", SourceValue(0.05 * u("kWh/GB")))
+    o["dev"] = Device.laptop("laptop")
+    o["country"] = Countries.FRANCE()
+    o["up"] = UsagePattern("usage pattern", o["uj"], [o["dev"]], o["net"], o["country"],
+                           SourceHourlyValues(create_hourly_usage_df_from_list([float(x) for x in values], datetime(2025, 1, 1))))
+    b.system = System("services system", [o["up"]]); o["system"] = b.system
+    b.system_handles = {id(getattr(v, "_value", v)): k for k, v in o.items()}
+    HANDLES[id(b.system)] = b.system_handles
+    return b
+
+
+def identity_snapshot(system):
+    """identity (python id) and physical view of every ExplainableObject attribute and of every link of every object"""
+    out = {}
+    handles = HANDLES.get(id(system), {})
+    for obj in all_objects(system):
+        obj = getattr(obj, "_value", obj)
+        name = handles.get(id(obj), obj.name)
+        for k, val in obj.__dict__.items():
+            if k in ("contextual_modeling_obj_containers",): continue
+            if k.startswith("previous_") or k.startswith("initial_") or k in ("all_changes", "previous_change", "simulation"): continue
+            if isinstance(val, dict) and not isinstance(val, ExplainableObject):
+                out[(name, k)] = ("dict", tuple((getattr(kk, "name", str(kk)), id(vv)) for kk, vv in val.items()), view(val))
+            elif isinstance(val, ExplainableObject):
+                out[(name, k)] = ("value", id(val), view(val))
+            elif isinstance(val, list):
+                out[(name, k)] = ("list", tuple(getattr(x, "_value", x).name for x in val), None)
+            elif hasattr(val, "_value"):
+                out[(name, k)] = ("link", val._value.name, None)
+        try:
+            out[(name, "<reverse links>")] = ("list", tuple(sorted(getattr(c, "_value", c).name for c in obj.modeling_obj_containers)), None)
+        except Exception as ex:
+            out[(name, "<reverse links>")] = ("list", ("raises " + type(ex).__name__,), None)
+    return out
+
+
+def identity_diff(a, b, identities=True):
+    d = []
+    for k in sorted(set(a) | set(b), key=str):
+        if k not in a or k not in b: d.append(f"{k[0]}.{k[1]}:presence"); continue
+        x, y = a[k], b[k]
+        if x[0] != y[0]: d.append(f"{k[0]}.{k[1]}:kind"); continue
+        if x[0] in ("list", "link"):
+            if x[1] != y[1]: d.append(f"{k[0]}.{k[1]}:link")
+            continue
+        if not view_equal(x[2], y[2]): d.append(f"{k[0]}.{k[1]}:value")
+        elif identities and x[1] != y[1]: d.append(f"{k[0]}.{k[1]}:identity")
+    return d
